@@ -512,7 +512,9 @@ def _ediff1d(draw, og):
 
 @recipe("reshape", "shape", method="reshape")
 def _reshape(draw, og):
-    a = og.array(draw)
+    order = draw(st.sampled_from([None, None, "C", "F", "F", "F"]))
+    # (the element order only matters from two dimensions on)
+    a = og.array(draw, min_ndim=2 if order == "F" and draw(st.integers(0, 3)) else 0)
     size = gen.size_of(tuple(a["shape"]))
     facs = [[size], [1, size], [size, 1], [-1], [1, -1]]
     for d in range(2, size):
@@ -524,8 +526,8 @@ def _reshape(draw, og):
         facs += [[], [1, 1, 1]]
     shape = draw(st.sampled_from(facs))
     kw = {}
-    if draw(st.integers(0, 3)) == 0:
-        kw["order"] = draw(st.sampled_from(["C", "F"]))
+    if order is not None:
+        kw["order"] = order
     return {"args": [P(a), {"$tuple": shape}], "kw": kw}
 
 
